@@ -5,6 +5,9 @@ here = os.path.dirname(os.path.dirname(os.path.abspath(__file__)))
 sys.path.insert(0, here)
 from tools.manifest_table import CHECKS, NOT_APPLICABLE, ENGINES, NOTES, SOURCE_COMMITS
 
+CHECKS = sorted(CHECKS, key=lambda c: c["id"])
+for e in ENGINES:
+    e["serves_properties"] = [c["id"] for c in CHECKS if c["engine"] == e["name"]]
 checks = []
 for c in CHECKS:
     pid = c["id"]
